@@ -1022,7 +1022,13 @@ func unparsePipelinedCall(call b6.CallExpression, top bool) (string, bool) {
 	if !ok {
 		return "", false
 	}
-	rhs, ok := unparseCall(b6.CallExpression{Function: call.Function, Args: call.Args[1:]}, true)
+	var rhs string
+	if f, isCall := call.Function.AnyExpression.(b6.CallExpression); isCall && f.Pipelined && len(call.Args) == 1 {
+		// a | (b | c): without the brackets this would parse as (a | b) | c
+		rhs, ok = unparsePipelinedCall(f, false)
+	} else {
+		rhs, ok = unparseCall(b6.CallExpression{Function: call.Function, Args: call.Args[1:]}, true)
+	}
 	if !ok {
 		return "", false
 	}
